@@ -226,7 +226,7 @@ def judge(r, fn, gbox, region, mode, req, axy, tol, aclass, what, crs=None):
 # ---------------------------------------------------------------------------------------------
 # position of the low edge and span of the region, in pixels (values straddling every tolerance)
 LEFT_Q = (0.0, 0.2, -0.2, 3.0, 2.996, 3.004, -7.5, 1000.3, -1e6 + 0.4, 1e7 + 0.3)
-SPAN_Q = (0.0, 0.005, 0.1, 0.99, 0.995, 1.0, 1.004, 1.0099, 1.0101, 2.5, 7.0, 100.5, 12345.678, 2e6)
+SPAN_Q = (0.0, 0.005, 0.1, 0.99, 0.995, 1.0, 1.004, 1.0099, 1.0101, 2.004, 2.5, 7.0, 100.5, 12345.678, 2e6)
 RES_Q = tuple(s * v for v in (1.0, 10.0, 0.25, 30.0, 0.1, 1 / 3) for s in (1, -1))
 ANCHOR_Q = ("edge", "center", 0.25, 0.9, ("xy", 0.1, 0.7), "floating")
 TOL_Q = (0.0, 1e-6, 0.01, 0.1)
@@ -568,11 +568,11 @@ def run_xcrs(case):
 
 
 # ---------------------------------------------------------------------------------------------
-# slice 7: zoom_to(resolution=) of an axis aligned GeoBox
+# slice 7: zoom_to(resolution=) of a GeoBox of any orientation (incl. rotated / sheared)
 # ---------------------------------------------------------------------------------------------
 Z_ORG = (0.0, 0.2, -7.5, 1000.3, -1e6 + 0.4, 1e7 + 0.3)
 Z_PIX = (1.0, 30.0, 0.1, 1 / 3)
-Z_SGN = ((1, -1), (1, 1), (-1, -1), (-1, 1))
+Z_SGN = ((1, -1), (1, 1), (-1, -1), (-1, 1), "rot30", "shear")
 Z_SHAPE = ((1, 1), (3, 5), (7, 2), (100, 33))
 Z_RATIO = (0.1, 1 / 3, 0.5, 0.99, 0.995, 1.0, 1.004, 1.0099, 1.0101, 2.0, 2.5, 3.0, 7.0, 100.5)
 Z_FORM = ("scalar", "scalar-neg", "++", "--", "-+", "aniso")
@@ -585,23 +585,34 @@ def gen_zoom(tier):
 
 
 def run_zoom(case):
-    org, pix, (sx, sy), shape, ratio, form, crs = case
+    org, pix, orient, shape, ratio, form, crs = case
     ny, nx = shape
-    A = Affine(sx * pix, 0.0, org * pix, 0.0, sy * pix, -org * pix + 0.5 * pix)
+    cx, cy = org * pix, -org * pix + 0.5 * pix
+    if orient == "rot30":
+        A = Affine.translation(cx, cy) * Affine.rotation(30.0) * Affine.scale(pix, -pix)
+    elif orient == "shear":
+        A = Affine.translation(cx, cy) * Affine.shear(15.0, 0.0) * Affine.scale(pix, -pix)
+    else:
+        sx, sy = orient
+        A = Affine(sx * pix, 0.0, cx, 0.0, sy * pix, cy)
     base = GeoBox(shape, A, crs)
     q = pix * ratio
     renc = {"scalar": ("s", q), "scalar-neg": ("s", -q), "++": ("xy", q, q), "--": ("xy", -q, -q),
             "-+": ("xy", -q, q), "aniso": ("xy", q, -q / 3)}[form]
     rarg, req = res_arg(renc)
-    # the region is the footprint of the base GeoBox, exactly, from its affine
-    xa, xb = Fr(A.c), Fr(A.c) + nx * Fr(A.a)
-    ya, yb = Fr(A.f), Fr(A.f) + ny * Fr(A.e)
-    region = (min(xa, xb), min(ya, yb), max(xa, xb), max(ya, yb))
+    # the region is the bounding box of the footprint of the base GeoBox: its four corners mapped
+    # through the six binary64 coefficients of its affine, exactly
+    a_, b_, c_, d_, e_, f_ = (Fr(v) for v in tuple(A)[:6])
+    cxs = [a_ * i + b_ * j + c_ for i in (0, nx) for j in (0, ny)]
+    cys = [d_ * i + e_ * j + f_ for i in (0, nx) for j in (0, ny)]
+    region = (min(cxs), min(cys), max(cxs), max(cys))
     what = _what("zoom_to", base_shape=shape, base_affine=tuple(A)[:6], resolution=renc, crs=crs)
     r = R()
     g = base.zoom_to(resolution=rarg)
     # documented defaults of from_bbox apply: tol = 1/100 of a (new) pixel; no snapping
     r.outcome = judge(r, "zoom_to", g, region, "res", req, None, 0.01, "tight", what)
+    if isinstance(orient, str):
+        r.outcome += " " + orient
     if g.crs != base.crs:
         r.fail("zoom_to:crs", f"{what}: crs {g.crs} expected {base.crs}")
     return r
@@ -629,7 +640,8 @@ def slices(tier):
           "from_geopolygon(crs=other) incl. 'utm' (and from_bbox(..., 'utm')): region = fresh pyproj transform "
           "of the vertices"),
         S("zoom-res", gen_zoom, run_zoom,
-          "GeoBox.zoom_to(resolution=) of axis aligned boxes of every orientation: region = exact footprint"),
+          "GeoBox.zoom_to(resolution=) of boxes of every orientation (4 axis aligned, rotated, sheared): region = "
+          "exact bounding box of the footprint"),
     ]
 
 
@@ -666,8 +678,8 @@ def main(ctx):
         "resolution-driven clause applies; the pixel count along the longest side is recorded, not demanded",
         "from_geopolygon(crs=other): to_crs adds no vertices by default, so the region is the bounding box of the "
         "vertices transformed by a fresh pyproj.Transformer; curvature of edges is the subject of C07/C11",
-        "zoom_to(resolution=): axis aligned GeoBoxes only (bounding box of rotated boxes is C02); tol is the "
-        "documented default 0.01 of a new pixel",
+        "zoom_to(resolution=): the region is the bounding box of the four corners of the source GeoBox (exact, from "
+        "its affine); tol is the documented default 0.01 of a new pixel; the result is not snapped (tight)",
     ]
     sl = slices(ctx.tier)
     if ctx.only:
